@@ -442,12 +442,15 @@ Definition parse_definition (fuel : nat) (st : pst) : res (definition * pst) :=
   else Err.
 
 (* parseDocument: definitions until EOF (which is consumed, so the document's
-   Loc ends at the EOF token); Document : Definition+ *)
+   Loc ends at the EOF token); Document : Definition+.  The EOF token is the
+   last token there is (lexing stops at it), so a token list that continues
+   after its first EOF token is not a token stream and is refused. *)
 Definition parse_document (fuel : nat) (ts : list token) : res document :=
   let st : pst := (0, ts) in
   let start := cur_start st in
   ' (defs, st1) <- many fuel (parse_definition fuel) EOF st ;;
-  if is_nil defs then Err else Ok (mkdoc defs (mkl start st1)).
+  if is_nil defs then Err
+  else match snd st1 with [] => Ok (mkdoc defs (mkl start st1)) | _ :: _ => Err end.
 
 Definition parse_tokens (ts : list token) : res document :=
   parse_document (S (2 * List.length ts)) ts.
